@@ -421,7 +421,7 @@ def run_C16(ctx):
     # its single-/half-precision neighbours, handed over in narrow numpy types — whatever the arithmetic noise of the
     # split steps, the two devices must agree with each other
     nd = [F(950.3), F(950.2), F(200.1), F(99.9), F(333.3), F(50.05)]
-    prof3 = {"p_fail": 0.15, "nops": (1, 3), "kinds": ["transfer"], "fail_kinds": ["transfer"], "max_volumes": nd, "p_trough": 0.3, "p_near_equal": 0.0, "p_narrow_vols": 0.7}
+    prof3 = {"p_fail": 0.15, "nops": (1, 3), "kinds": ["transfer"], "fail_kinds": ["transfer"], "max_volumes": nd, "p_trough": 0.3, "p_near_equal": 0.0, "p_narrow_vols": 0.7, "p_dtype_neighbour": 0.4}
     for _ in range(ctx.n(60)):
         p = G.gen_worklist_program(rng, prof3)
         pe = copy.deepcopy(p); pe["cfg"] = dict(pe["cfg"], dev="evo")
@@ -2041,7 +2041,9 @@ def gen_record_program(rng):
             t2 = respell_tips(syms)
             if t2 is not None:
                 op2 = copy.deepcopy(op)
-                op2["kw"]["tip"] = ("single", t2[0]) if tp[0] == "single" else ("many", t2)
+                op2["kw"]["tip"] = ("single", t2[0]) if tp[0] == "single" else ("many", t2, "tuple")
+                if tp[0] == "many":
+                    op["kw"]["tip"] = ("many", list(tp[1]), "tuple")     # both spelled as (hashable) tuples
                 ops.append(op2)
     return {"cfg": cfg, "labs": [], "ops": ops, "exact": True}
 
